@@ -122,29 +122,56 @@ def run_case(case, ctx):
         rnd = random.Random(case["seed"] + 1)
         done_d, done_p = [], []
         hit_files = set()
-        for (pos, dn, f, idx) in dv:
-            p = w.full(dn, f.sub)
-            if not os.path.exists(p) or os.lstat(p).st_nlink > 1 or (dn, f.sub, idx) in hit_files:
+
+        def took(pos, dn, f, idx, shape):
+            """book a corrupted data block, unless its truncated hash still matches (legitimate miss)"""
+            data = w.read_file(dn, f.sub)[idx * bs:(idx + 1) * bs]
+            info = c.info[pos]
+            kind, seed = c.prevhash if (info and info.rehash) else c.hash
+            hit_files.add((dn, f.sub, idx))
+            if hashes.memhash(kind, seed, data)[:c.hash_size] == f.blocks[idx][2]:
+                classes.add("hash collision (legitimate miss)")
+                return
+            done_d.append((pos, dn, f.sub, idx))
+            classes.add("data shape " + shape)
+            nblk = len(f.blocks)
+            classes.add("last partial block" if idx == nblk - 1 and f.size % bs else ("first block" if idx == 0 else "middle block"))
+
+        usable = [v for v in dv if os.path.exists(w.full(v[1], v[2].sub)) and os.lstat(w.full(v[1], v[2].sub)).st_nlink == 1]
+        k = 0
+        while k < len(usable):
+            pos, dn, f, idx = usable[k]
+            if (dn, f.sub, idx) in hit_files:
+                k += 1
                 continue
+            # swap of two blocks: two chosen victims exchange their bytes (both stripes were chosen for damage anyway)
+            if k + 1 < len(usable) and rnd.random() < 0.3:
+                pos2, dn2, f2, idx2 = usable[k + 1]
+                if (dn2, f2.sub, idx2) not in hit_files and (dn2, f2.sub, idx2) != (dn, f.sub, idx) and \
+                        damage.swap_file_blocks(w, (dn, f.sub, idx), (dn2, f2.sub, idx2), bs):
+                    took(pos, dn, f, idx, "swap")
+                    took(pos2, dn2, f2, idx2, "swap")
+                    k += 2
+                    continue
             shape = rnd.choice(["bit", "byte", "block", "zero"])
             if damage.corrupt_file_block(w, dn, f.sub, idx, bs, rnd, shape=shape):
-                # legitimate miss: truncated hash collision
-                data = w.read_file(dn, f.sub)[idx * bs:(idx + 1) * bs]
-                info = c.info[pos]
-                kind, seed = c.prevhash if (info and info.rehash) else c.hash
-                if hashes.memhash(kind, seed, data)[:c.hash_size] == f.blocks[idx][2]:
-                    classes.add("hash collision (legitimate miss)")
-                    continue
-                done_d.append((pos, dn, f.sub, idx))
-                hit_files.add((dn, f.sub, idx))
-                classes.add("data shape " + shape)
-                nblk = len(f.blocks)
-                classes.add("last partial block" if idx == nblk - 1 and f.size % bs else ("first block" if idx == 0 else "middle block"))
-        for (pos, lev) in pv:
+                took(pos, dn, f, idx, shape)
+            k += 1
+        k = 0
+        while k < len(pv):
+            pos, lev = pv[k]
+            if k + 1 < len(pv) and pv[k + 1][1] == lev and rnd.random() < 0.3 and damage.swap_parity_blocks(w.arr, c, lev, pos, pv[k + 1][0]):
+                done_p.append((pos, lev))
+                done_p.append((pv[k + 1][0], lev))
+                classes.add("parity level %d" % (lev + 1))
+                classes.add("parity shape swap")
+                k += 2
+                continue
             shape = rnd.choice(["bit", "block", "zero"])
             if damage.corrupt_parity_block(w.arr, c, lev, pos, rnd, shape=shape):
                 done_p.append((pos, lev))
                 classes.add("parity level %d" % (lev + 1))
+            k += 1
         pre_content = w.arr.read_content()
         run = w.cmd(cmd, args)
         if run.timed_out:
